@@ -17,12 +17,19 @@ side builders) and compared inside Coq (vm_compute) with the model's trace:
 accepted / exception class, installed routine, final self._method, chosen
 right-hand side, the sequence of propagator applications (delta, from which
 state, one- or two-sided), evo.t after every call, callback times.
+Time lists: random dyadic lists, late times with tiny relative increments, and
+step-SIZE families on 2^-36 / 2^-44 grids (nearly equal, tiny in absolute terms,
+geometric, zero/tiny/ordinary mixtures); for these the observed steps are also
+compared with the closed form of C18_step_rule and, as the searcher for a
+concrete failing input, with an exact Fraction reference (step_probe).
 Exact contract checks: the right-hand sides on Gaussian-integer data vs integer
 arithmetic.
 
 Oracle (test, tolerance): random Hermitian H in every representation, kets and
 density operators, t0 != 0, all methods and time sequences vs scipy.linalg.expm
-(4th-order Magnus product for time-dependent H), conservation laws, callbacks.
+(4th-order Magnus product for time-dependent H), conservation laws, callbacks;
+repeated with H in other units (GHz rad/s on nanosecond grids, ||H|| = 1e-6 on
+times ~1e6) and with nearly equal successive steps.
 """
 
 import contextlib
@@ -30,6 +37,7 @@ import io
 import json
 import math
 import os
+import warnings
 
 import numpy as np
 
@@ -40,12 +48,19 @@ RULE = (
     "operator,(evals,evecs) tuple,callable} x {d=2,d=3} x {int_stop none/given}, each with several random dyadic "
     "(multiples of 1/8) t0 and time lists (non-uniform, repeated; non-monotonic for solve and expm), plus for "
     "every accepted cell late-time lists with increments tiny relative to the current time (t0=256 with steps of "
-    "2^-10; t=64 then steps of 2^-13), through update_to or at_times; compared exactly in Coq (the model's integrate "
-    "skip rule is the coded 4-ulp test).  Non-trivial: accepted cell with >= 2 requested times, or a "
+    "2^-10; t=64 then steps of 2^-13) and four step-size families on finer dyadic grids (2^-36 / 2^-44): successive "
+    "steps equal up to a relative 1e-10..5e-2 (with exact repeats and sign flips), steps tiny in absolute terms "
+    "(6e-14..1.4e-8, t0 = 0 or ~1e-9..6e-8), geometric grids from 2^-44, and zero / tiny / ordinary / repeated-ordinary "
+    "mixtures (first requested time == t0), through update_to or at_times; compared exactly in Coq (the model's "
+    "integrate skip rule is the coded 4-ulp test; the observed steps are also compared with the closed form of "
+    "C18_step_rule) and, for the step families, by an exact Fraction reference on the step handed to the "
+    "propagator primitive.  Non-trivial: accepted cell with >= 2 requested times, or a "
     "rejected cell.  oracle: random Hermitian H (real/complex, d in 2..8), dense/sparse/tuple/linear operator/"
     "callable, pure and mixed states, t0 != 0, vs scipy.linalg.expm at 1e-7 (integrate: 1e-4, scipy's default "
     "rtol=1e-6 cannot be set through Evolution), incl. fine grids late in time (t0=250, dt=1e-3; t=40, dt=1e-4) with "
-    "||H||=50; non-trivial: >= 2 requested times."
+    "||H||=50, and every time-independent cell in other units (||H|| = 2 pi x 0.3..3 GHz with irregular / geometric / "
+    "zero-step-first nanosecond grids; ||H|| = 1e-6 with times ~1e6) and with nearly equal successive steps "
+    "(relative 1e-7..1e-4, ||H|| = 10..50); non-trivial: >= 2 requested times."
 )
 
 TOL = 1e-7  # solve / expm
@@ -105,6 +120,14 @@ Definition obs_match (v : version) (c : config) (t0 : Z) (ts : list Z)
   let o := ZI.observe v c t0 ts in
   ctor_eqb (ZI.o_ctor o) k && zl_eqb (ZI.o_clocks o) clk && evl_eqb (ZI.o_trace o) tr
   && (is_int k || zl_eqb (ZI.o_cb_times o) cb).
+(* the step rule (C18_step_rule): the observed propagator applications are the
+   closed form of (routine, t0, requested times) - 'expm' steps are exactly the
+   successive differences of the requested times, whatever the earlier steps were *)
+Definition steps_match (v : version) (t0 : Z) (ts : list Z) (k : ctor) (tr : list (event Z)) : bool :=
+  match k with
+  | Accepted r _ _ => evl_eqb (ZI.zclosed_trace (v_int_skip_same v) r t0 t0 ts) tr
+  | Raised _ => true
+  end.
 (* the state the model holds equals the replay of the observed trace *)
 Definition replay_match (v : version) (c : config) (t0 : Z) (ts : list Z) (tr : list (event Z)) : bool :=
   match construct v c with
@@ -127,22 +150,22 @@ def dy(rng, lo, hi):
     return rng.randint(int(lo * 8), int(hi * 8)) / 8
 
 
-def to_z(x):
+def to_z(x, scale=SCALE):
     """exact conversion of a dyadic float time to the scaled integer"""
-    y = float(x) * SCALE
+    y = float(x) * scale
     if not y.is_integer():
-        raise ValueError(f"time {x!r} is not a multiple of 1/{SCALE}")
+        raise ValueError(f"time {x!r} is not a multiple of 1/{scale}")
     return int(y)
 
 
-def near_z(x):
+def near_z(x, scale=SCALE):
     """the integrator returns t = x + (xend - x), which may be one ulp off the
     requested dyadic time: snap when within 1e-12 (relative)"""
-    y = float(x) * SCALE
+    y = float(x) * scale
     r = round(y)
     if abs(y - r) <= 1e-11 * max(1.0, abs(y)):
         return int(r)
-    raise ValueError(f"integrator time {x!r} is not (numerically) a multiple of 1/{SCALE}")
+    raise ValueError(f"integrator time {x!r} is not (numerically) a multiple of 1/{scale}")
 
 
 def herm_dyadic(rng, d):
@@ -279,9 +302,10 @@ def same_array(a, b):
     return a.shape == b.shape and np.array_equal(a, b)
 
 
-def canon_update(evo, raw, ham_matrix, pt_before):
+def canon_update(evo, raw, ham_matrix, pt_before, scale=SCALE):
     """turn the primitive calls of ONE update into one model event (Coq text);
     raises ValueError when the call pattern is none the model knows."""
+    to_zs = lambda x: to_z(x, scale)
     import quimb as qu
 
     kinds = [c[0] for c in raw]
@@ -295,7 +319,7 @@ def canon_update(evo, raw, ham_matrix, pt_before):
             _, diag, mat, _ = raw[1]
             if diag is not lt or mat is not evo.pe0:
                 raise ValueError("ldmul not applied as diag(lt) @ pe0")
-            return f"Ev_diag {zlit(to_z(delta))} false"
+            return f"Ev_diag {zlit(to_zs(delta))} false"
         if kinds == ["explt", "ldmul", "rdmul"]:
             _, diag, mat, lout = raw[1]
             _, rmat, rdiag, _ = raw[2]
@@ -303,7 +327,7 @@ def canon_update(evo, raw, ham_matrix, pt_before):
                 raise ValueError("ldmul/rdmul not applied as diag(lt) @ pe0 @ diag(.)")
             if not np.array_equal(np.asarray(rdiag), np.asarray(lt).conj()):
                 raise ValueError("right diagonal factor is not conj(lt)")
-            return f"Ev_diag {zlit(to_z(delta))} true"
+            return f"Ev_diag {zlit(to_zs(delta))} true"
         raise ValueError(f"unknown solved-update call pattern {kinds}")
     if kinds and kinds[0] == "expm":
         _, A, vec, out1 = raw[0]
@@ -315,15 +339,15 @@ def canon_update(evo, raw, ham_matrix, pt_before):
         if vec is not pt_before:
             raise ValueError("expm_multiply not applied to the current state")
         if kinds == ["expm"]:
-            return f"Ev_expm {zlit(to_z(delta))} false"
+            return f"Ev_expm {zlit(to_zs(delta))} false"
         if kinds == ["expm", "expm"]:
             _, A2, vec2, _ = raw[1]
             if same_array(A2, A) and same_array(vec2, qu.dag(out1)):
-                return f"Ev_expm {zlit(to_z(delta))} true"
+                return f"Ev_expm {zlit(to_zs(delta))} true"
         raise ValueError(f"unknown expm-update call pattern {kinds}")
     if kinds == ["int"]:
         _, tfrom, tto, _ = raw[0]
-        return f"Ev_int {zlit(near_z(tfrom))} {zlit(to_z(tto))}"
+        return f"Ev_int {zlit(near_z(tfrom, scale))} {zlit(to_zs(tto))}"
     raise ValueError(f"unknown update call pattern {kinds}")
 
 
@@ -350,7 +374,7 @@ def build_ham(hk, H, H1=None):
     raise KeyError(hk)
 
 
-def observe_impl(method, isdop, hk, d, int_stop, t0, ts, api, rngseed):
+def observe_impl(method, isdop, hk, d, int_stop, t0, ts, api, rngseed, scale=SCALE):
     """run one cell through the implementation under the spies; returns the
     canonical observation (ctor literal, clocks, events, callback times) or
     raises ValueError if something observed is outside the model's vocabulary"""
@@ -399,10 +423,10 @@ def observe_impl(method, isdop, hk, d, int_stop, t0, ts, api, rngseed):
                         raise ValueError("at_times did not yield evo.pt")
                 else:
                     evo.update_to(t)
-                ev = canon_update(evo, spy.take(), H, pt_before)
+                ev = canon_update(evo, spy.take(), H, pt_before, scale)
                 if ev is not None:
                     events.append(ev)
-                clocks.append(near_z(evo.t) if rname == "R_integrate" else to_z(evo.t))
+                clocks.append(near_z(evo.t, scale) if rname == "R_integrate" else to_z(evo.t, scale))
         except ValueError:
             raise
         except Exception as e:
@@ -411,7 +435,7 @@ def observe_impl(method, isdop, hk, d, int_stop, t0, ts, api, rngseed):
         want_eigh = 1 if (rname.startswith("R_solved") and hk != "tuple") else 0
         if spy.eigh_calls != want_eigh:
             raise ValueError(f"eigh called {spy.eigh_calls} times, expected {want_eigh}")
-        cb = [] if rname == "R_integrate" else [to_z(t) for t in cb_times]
+        cb = [] if rname == "R_integrate" else [to_z(t, scale) for t in cb_times]
         if rname == "R_expm_ket" and any(e.startswith("Ev_expm") and e.endswith("true") for e in events):
             # a two-sided exponential update, whatever the bound method is called
             ctor = ctor.replace("R_expm_ket", "R_expm_dop")
@@ -504,6 +528,161 @@ def late_times(rng, family, method):
     return t0, ts
 
 
+STEP_FAMILIES = {
+    "R": "near_equal_steps_rel",
+    "T": "tiny_steps_abs",
+    "G": "geometric_steps",
+    "M": "mixed_zero_tiny_ordinary_steps",
+}
+
+
+def step_times(rng, fam, method):
+    """requested times whose successive STEP SIZES are nearly - but not exactly -
+    equal, or tiny in absolute terms, on a dyadic grid fine enough to express
+    them exactly (integers in units of 1/scale; every time and every difference
+    is an exact double):
+      R  steps base +- k 2^e / 2^36 with base in {1/4, 1/2, 1, 3}: equal up to a
+         relative 1e-10 .. 5e-2; exact repeats of a step; sign flips (not integrate)
+      T  steps k u with u in 2^-44 .. 2^-32 (6e-14 .. 1.4e-8 in absolute terms), t0 = 0 or ~ +-1e-9 .. 6e-8
+      G  steps u 2^j (a geomspace-like grid starting at 2^-44 .. 2^-36), growing or shrinking
+      M  a zero step first (t == t0, as at_times(ts) with ts[0] == t0 does), then tiny,
+         ordinary (1/8 ..), tiny, the same ordinary step again, ordinary + tiny
+    returns (t0, ts, scale)."""
+    mono = method == "integrate"
+    sign = lambda: 1 if (mono or rng.random() < 0.7) else -1
+    if fam == "R":
+        scale = 2 ** 36
+        base = rng.choice([1, 2, 4, 12]) * 2 ** 34
+        t0 = rng.randint(-8, 8) * 2 ** 33
+        steps = [base]
+        for _ in range(rng.randint(2, 4)):
+            r = rng.random()
+            if r < 0.2:
+                steps.append(steps[-1])
+            elif r < 0.35:
+                steps.append(base // 2 + rng.randint(0, 3) * 2 ** rng.choice([0, 6, 14]))
+            else:
+                steps.append(base + rng.choice([-1, 1]) * rng.randint(1, 3) * 2 ** rng.choice([2, 6, 12, 16, 20, 28]))
+        steps = [sign() * x for x in steps]
+    elif fam == "T":
+        scale = 2 ** 44
+        u = 2 ** rng.choice([0, 4, 8, 12])
+        t0 = rng.choice([0, 0, 1, -1]) * rng.randint(1, 64) * 2 ** 14
+        steps = [sign() * rng.randint(1, 60) * u for _ in range(rng.randint(3, 5))]
+        if rng.random() < 0.3:
+            steps.insert(rng.randint(0, len(steps)), 0)
+    elif fam == "G":
+        scale = 2 ** 44
+        u = rng.randint(1, 3) * 2 ** rng.choice([0, 4, 8])
+        t0 = rng.choice([0, 0, 1]) * rng.randint(1, 64) * 2 ** 14
+        steps = [u * 2 ** j for j in range(rng.randint(4, 7))]
+        if rng.random() < 0.4:
+            steps.reverse()
+        if not mono and rng.random() < 0.3:
+            steps = [-x for x in steps]
+    elif fam == "M":
+        scale = 2 ** 44
+        t0 = rng.randint(-4, 4) * 2 ** 41
+        big = rng.randint(1, 6) * 2 ** 41
+        tiny = lambda: rng.randint(1, 40) * 2 ** rng.choice([0, 6, 12])
+        steps = [0, tiny(), big, tiny(), big, big + tiny()]
+        if not mono and rng.random() < 0.5:
+            steps += [-big, -big - tiny()]
+    else:
+        raise KeyError(fam)
+    ts, cur = [], t0
+    for x in steps:
+        cur += x
+        ts.append(cur / scale)
+    return t0 / scale, ts, scale
+
+
+def step_probe(rec):
+    """DIRECT ORACLE on the implementation at the level of the step rule (exact for
+    the direct routines - all times are dyadic, the reference is computed with
+    Fractions): for each update, the step handed to the propagator primitive
+    (explt(evals, delta) for the solved routines, the operator (-i delta) H given
+    to expm_multiply for the expm routines, stepper.integrate(t) for the
+    integrator) against  t - t0  /  t - (previously requested time)  /  t, and the
+    clock after the call.  Returns a list of mismatch records."""
+    import random
+    from fractions import Fraction as F
+
+    import quimb as qu
+    from quimb.evo import Evolution
+
+    rng = random.Random(rec["seed"])
+    H = herm_dyadic(rng, rec["d"])
+    p0 = int_state(rng, rec["d"], rec["isdop"])
+    t0, ts = rec["t0"], rec["ts"]
+    eps4 = 4 * np.finfo(float).eps
+    out = []
+    with Spy() as spy:
+        kw = {"int_stop": (lambda t, p: None)} if rec["int_stop"] else {}
+        try:
+            evo = Evolution(qu.qu(p0), build_ham(rec["ham"], H), t0=t0, method=rec["method"], **kw)
+        except Exception:
+            return out  # rejected cells are the business of the support-table checks
+        rname = evo._update_method.__name__
+        spy.take()
+        gen = evo.at_times(ts) if rec["api"] == "at_times" else None
+        prev = t0
+        for i, t in enumerate(ts):
+            before = float(evo.t)
+            try:
+                if gen is not None:
+                    next(gen)
+                else:
+                    evo.update_to(t)
+            except Exception as e:
+                out.append({"i": i, "t": t, "from": prev, "what": "raised", "detail": f"{type(e).__name__}: {str(e)[:120]}"})
+                break
+            raw = spy.take()
+            after = float(evo.t)
+            if "solved" in rname or "expm" in rname:
+                if "solved" in rname:
+                    want = F(t) - F(t0)
+                    used = [F(float(c[2])) for c in raw if c[0] == "explt"]
+                    ncalls = [1]
+                else:
+                    want = F(t) - F(prev)
+                    used = [F(-complex(c[1][0, 0]).imag) for c in raw if c[0] == "expm"]  # H[0, 0] == 1
+                    ncalls = [1, 2]
+                if len(used) not in ncalls or any(u != want for u in used):
+                    out.append({"i": i, "t": t, "from": prev, "what": "step", "used": [float(u) for u in used], "want": float(want)})
+                if after != t:
+                    out.append({"i": i, "t": t, "from": prev, "what": "clock", "used": after, "want": t})
+            else:
+                calls = [c for c in raw if c[0] == "int"]
+                same = abs(t - before) <= eps4 * max(abs(t), abs(before))
+                if (not calls and not same) or any(c[2] != t for c in calls) or len(calls) > 1:
+                    out.append({"i": i, "t": t, "from": before, "what": "step", "used": [c[2] for c in calls], "want": t})
+                if abs(after - t) > 2 * eps4 * max(abs(t), abs(before)):
+                    out.append({"i": i, "t": t, "from": before, "what": "clock", "used": after, "want": t})
+            prev = t
+    return out
+
+
+def report_steps(ctx, rec, mism):
+    if not mism:
+        return
+    m = mism[0]
+    sk = "dop" if rec["isdop"] else "ket"
+    fam = STEP_FAMILIES.get(rec.get("family"), {"A": "late_time_small_increment", "B": "late_time_small_increment"}.get(
+        rec.get("family"), "dyadic_times"))
+    key = f"Evolution.{rec['method']}:{sk}:{rec['ham']}:{m['what']}:{fam}"
+    if m["what"] == "step":
+        msg = (f"request {m['i']} of t0={rec['t0']!r}, ts={rec['ts']!r} ({rec['api']}): going from {m['from']!r} to t={m['t']!r} the "
+               f"propagator primitive was given the step {m['used']!r}, the exact step is {m['want']!r}")
+    elif m["what"] == "clock":
+        msg = f"request {m['i']} of t0={rec['t0']!r}, ts={rec['ts']!r} ({rec['api']}): evo.t = {m['used']!r} after asking for t={m['t']!r}"
+    else:
+        msg = f"request {m['i']} of t0={rec['t0']!r}, ts={rec['ts']!r} ({rec['api']}): {m['detail']}"
+    replay = {k: rec[k] for k in ("method", "isdop", "ham", "d", "int_stop", "t0", "ts", "api", "seed")}
+    ctx.violation(key, f"Evolution(method={rec['method']!r}, {sk}, ham={rec['ham']}, d={rec['d']}): {msg}",
+                  dict(replay, kind="steps", family=rec.get("family"), mismatches=mism[:6]))
+
+
 def trace_stream(ctx):
     rng = ctx.rng
     v = detect_version(ctx)
@@ -523,41 +702,58 @@ def trace_stream(ctx):
                         late = ([("A", "update_to"), ("B", "at_times")] if (d + int(isdop)) % 2 else [("A", "at_times"), ("B", "update_to")])
                         if not ctx.quick:
                             late = [(f, a) for f in "AB" for a in ("update_to", "at_times")]
-                        plan = [None] * reps + (late if supported else [])
+                        # four more per accepted cell (x2 apis x3 in the thorough tier): step SIZES nearly equal /
+                        # tiny / geometric / mixed with zero and repeated steps (see step_times)
+                        flip = (d + int(isdop) + int(int_stop)) % 2
+                        stepfam = [(f, ("update_to", "at_times")[(i + flip) % 2]) for i, f in enumerate("RTGM")]
+                        if not ctx.quick:
+                            stepfam = [(f, a) for f in "RTGM" for a in ("update_to", "at_times")] * 3
+                        plan = [None] * reps + ((late + stepfam) if supported else [])
                         for rep, fam in enumerate(plan):
+                            scale = SCALE
                             if fam is None:
                                 t0 = dy(rng, -2, 2) if rep % 5 else 0.0
                                 n = rng.randint(1, 5)
                                 ts = random_times(rng, method, t0, n)
                                 api = "at_times" if rep % 2 else "update_to"
-                            else:
+                            elif fam[0] in "AB":
                                 t0, ts = late_times(rng, fam[0], method)
                                 api = fam[1]
                                 ctx.bump("late_time_small_increment:" + fam[0])
+                            else:
+                                t0, ts, scale = step_times(rng, fam[0], method)
+                                api = fam[1]
+                                ctx.bump("step_sizes:" + STEP_FAMILIES[fam[0]])
                             seed = rng.randrange(1 << 30)
                             cid += 1
                             rec = {"method": method, "isdop": isdop, "ham": hk, "d": d, "int_stop": int_stop,
-                                   "t0": t0, "ts": ts, "api": api, "seed": seed, "version": v}
+                                   "t0": t0, "ts": ts, "api": api, "seed": seed, "version": v,
+                                   "family": fam[0] if fam else None, "scale": scale}
                             info[cid] = rec
                             ctx.bump(f"cell:{method}")
                             try:
-                                o = observe_impl(method, isdop, hk, d, int_stop, t0, ts, api, seed)
+                                o = observe_impl(method, isdop, hk, d, int_stop, t0, ts, api, seed, scale)
                             except ValueError as e:
                                 rec["outside_model"] = str(e)
                                 ctx.count(("trace", cid), True)
                                 cases.append((cid, "false"))
                                 continue
+                            if fam is not None and fam[0] in STEP_FAMILIES:
+                                # the searcher on the new input class runs on every case (a few ms each)
+                                report_steps(ctx, rec, step_probe(rec))
                             rec["observed"] = o
                             accepted = o["ctor"].startswith("(Accepted")
                             ctx.count(("trace", method, isdop, hk, d, int_stop, t0, tuple(ts), api),
                                       (accepted and len(ts) >= 2) or not accepted)
                             ctx.bump("accepted" if accepted else "rejected:" + o["ctor"])
                             c = cfg_lit(method, isdop, hk, d == 2, int_stop)
-                            zts = zlist([to_z(t) for t in ts])
+                            zts = zlist([to_z(t, scale) for t in ts])
                             ev = coqlist(o["events"], lambda s: f"({s})")
-                            cases.append((cid, f"obs_match {vlit} {c} {zlit(to_z(t0))} {zts} {o['ctor']} "
+                            zt0 = zlit(to_z(t0, scale))
+                            cases.append((cid, f"obs_match {vlit} {c} {zt0} {zts} {o['ctor']} "
                                                f"{zlist(o['clocks'])} {ev} {zlist(o['cb'])} && "
-                                               f"replay_match {vlit} {c} {zlit(to_z(t0))} {zts} {ev}"))
+                                               f"replay_match {vlit} {c} {zt0} {zts} {ev} && "
+                                               f"steps_match {vlit} {zt0} {zts} {o['ctor']} {ev}"))
                             if cid in (3, 200, 511):
                                 ctx.sample(rec)
     failed, errors = ctx.coq_cases("trace", COQ_HEADER, cases, shard=ctx.n(600, 400))
@@ -615,13 +811,25 @@ def search_cell(ctx, rec):
     if not py_supported(rec["method"], hk, rec["int_stop"]):
         check_rejected(ctx, rec["method"], rec["isdop"], hk, rec["d"], rec["int_stop"])
         return
-    for d in (rec["d"], 3, 2):
-        for ts in (rec["ts"], rec["ts"][:2], rec["ts"][:1]):
-            if not ts:
-                continue
-            spec = make_spec(rng, d=d, isdop=rec["isdop"], method=rec["method"], hk=hk, cplx=True,
-                             t0=rec["t0"], ts=list(ts), api=rec["api"], compute="single2", mixed=False)
-            report(ctx, spec, run_oracle(spec, expect_supported=False))
+    mism = step_probe(rec)
+    report_steps(ctx, rec, mism)
+    # a Hamiltonian large enough for a wrong step to show in the state (||H|| * |step error| ~ 0.3 rad,
+    # total phase kept below ~1e3 rad so that the references stay accurate to 1e-10)
+    norms = [None]
+    errs = [abs(u - m["want"]) for m in mism if m["what"] == "step" for u in m["used"] if u != m["want"]]
+    span = max([abs(t - rec["t0"]) for t in rec["ts"]] + [0.0])
+    if errs and span > 0 and min(0.3 / min(errs), 1e3 / span) * min(errs) > 100 * TOL_INT:
+        norms.append(min(0.3 / min(errs), 1e3 / span))
+    for norm in norms:
+        for d in (rec["d"], 3, 2):
+            for ts in (rec["ts"], rec["ts"][:2], rec["ts"][:1]):
+                if not ts:
+                    continue
+                spec = make_spec(rng, d=d, isdop=rec["isdop"], method=rec["method"], hk=hk, cplx=True,
+                                 t0=rec["t0"], ts=list(ts), api=rec["api"], compute="single2", mixed=False, norm=norm)
+                if norm is not None:
+                    spec["wscale"] = norm
+                report(ctx, spec, run_oracle(spec, expect_supported=False))
 
 
 # ----------------------------------------------------------------------------
@@ -869,8 +1077,10 @@ def run_oracle(spec, expect_supported=True):
             "b": lambda t, p, Hc: seen["b"].append((t, np.array(np.asarray(p)), Hc)) or t,
         }
     states = []
+    caught = []
     try:
-        with contextlib.redirect_stderr(io.StringIO()):
+        with contextlib.redirect_stderr(io.StringIO()), warnings.catch_warnings(record=True) as caught:
+            warnings.simplefilter("always")
             evo = Evolution(qu.qu(p0), ham, t0=t0, method=method, compute=compute, progbar=spec.get("progbar", False))
             if spec["api"] == "at_times":
                 for t, p in zip(ts, evo.at_times(ts)):
@@ -888,9 +1098,13 @@ def run_oracle(spec, expect_supported=True):
             return []
         return [("raised", f"{type(e).__name__}: {str(e)[:160]}")]
     shape = (d, d) if isdop else (d, 1)
-    e0 = energy(H, p0, isdop)
+    # families with a Hamiltonian in other units (||H|| = wscale, times ~ 1 / wscale): energies are compared in
+    # units of wscale and the clock relative to the times themselves
+    wscale = spec.get("wscale")
+    escale = 1.0 if wscale is None else float(wscale)
+    e0 = energy(H, p0, isdop) / escale
     for i, (t, tclock, p) in enumerate(states):
-        if abs(tclock - t) > 1e-12 * max(1.0, abs(t)):
+        if abs(tclock - t) > 1e-12 * (max(1.0, abs(t)) if wscale is None else max(abs(t), abs(t0))):
             if (i > 0 and states[i - 1][0] == t and states[i - 1][1] != t and method == "integrate" and hk != "tuple"
                     and abs(states[i - 1][1] - t) <= 1e-12 * max(1.0, abs(t))):
                 # the previous call reached t only up to rounding (t +- 1 ulp); the
@@ -898,6 +1112,17 @@ def run_oracle(spec, expect_supported=True):
                 fails.append(("repeated_time_ulp", f"update_to({t!r}) repeated: the first call left evo.t={states[i - 1][1]!r}, "
                                                    f"the second one left evo.t={tclock!r}"))
                 break
+            gave_up = [str(w.message) for w in caught if "step size becomes too small" in str(w.message)]
+            if gave_up and method == "integrate" and hk != "tuple":
+                # the stepper starts every integrate() call with first_step = ||H(0)||_F / 50 (150 for dopri5) and
+                # gives up when 0.1 * first_step <= eps * |t|
+                H0 = H if user_ham is None else dense(user_ham(0.0))
+                if 0.1 * np.linalg.norm(H0, "fro") / 50 <= 2 * np.finfo(float).eps * abs(tclock):
+                    fails.append(("first_step_below_time_resolution",
+                                  f"update_to({t!r}) left evo.t={tclock!r}: scipy's stepper gave up ('{gave_up[0]}'), its first "
+                                  f"step ||H||_F / 50 = {np.linalg.norm(H0, 'fro') / 50:.3e} is below the floating point spacing of "
+                                  f"the current time"))
+                    break
             fails.append(("clock", f"requested t={t}, evo.t={tclock}"))
         if p.shape != shape:
             fails.append(("state", f"state of shape {p.shape}, expected {shape}"))
@@ -918,7 +1143,7 @@ def run_oracle(spec, expect_supported=True):
         else:
             q = [("norm", np.linalg.norm(p), np.linalg.norm(p0))]
         if not ref.td:
-            q.append(("energy", energy(H, p, isdop), e0))
+            q.append(("energy", energy(H, p, isdop) / escale, e0))
         for name, got, wantq in q:
             if not abs(got - wantq) <= 10 * tol:
                 fails.append((f"conserved:{name}", f"{name} at t={t}: {got} vs initial {wantq}"))
@@ -937,7 +1162,7 @@ def run_oracle(spec, expect_supported=True):
                     if isinstance(Hc, tuple):
                         el, ev = Hc
                         ev = np.asarray(ev)
-                        okH = np.abs(ev @ np.diag(np.asarray(el)) @ ev.conj().T - H).max() < 1e-9
+                        okH = np.abs(ev @ np.diag(np.asarray(el)) @ ev.conj().T - H).max() < 1e-9 * max(1.0, escale)
                     elif ref.td:
                         okH = np.abs(dense(Hc(0.3)) - dense(user_ham(0.3))).max() < 1e-12
                     else:
@@ -978,6 +1203,8 @@ def report(ctx, spec, fails):
         key = "Evolution.expm:dop:one_sided_propagator"
     elif tag == "raised" and method == "solve" and hk in ("dense", "sparse") and d == 2:
         key = "Evolution.solve:unsolved_2x2_ham:unpacked_as_tuple"
+    elif tag == "first_step_below_time_resolution":
+        key = "Evolution.integrate:first_step_proportional_to_ham_norm:step_size_too_small"
     elif tag == "repeated_time_ulp":
         key = "Evolution.integrate:repeated_time:one_ulp_backward_step"
     elif (tag == "raised" and "ZeroDivisionError" in msg and spec.get("progbar") and spec["api"] == "update_to"
@@ -985,6 +1212,8 @@ def report(ctx, spec, fails):
         key = "Evolution.integrate:progbar:update_to_current_time:ZeroDivisionError"
     else:
         key = f"Evolution.{method}:{sk}:{hk}:{tag}"
+        if spec.get("family"):
+            key += ":" + spec["family"]  # input class of the unit-scaled / nearly-equal-step families
     ctx.violation(key, f"Evolution(method={method!r}, {sk}, ham={hk}, d={d}): {msg}", dict(spec, failures=fails[:6]))
 
 
@@ -1077,6 +1306,51 @@ def oracle_stream(ctx):
                 ctx.count(("oracle_late", rep, k, method, hk, isdop, fam), True)
                 ctx.bump(f"oracle:late_fine_grid:{fam}:{method}")
                 report(ctx, spec, run_oracle(spec))
+    # other units / nearly equal steps (TEST, tolerance; references: scipy.linalg.expm of -i H (t - t0), cross-checked
+    # against the spectral form): the property is covariant under H -> w H, t -> t / w, so the families above are
+    # repeated with w = a few GHz in rad/s (times in nanoseconds: every step is < 1e-8 in absolute terms) and
+    # w = 1e-6 (times ~ 1e6), on irregular, geometric and zero-step-first grids; and in natural units with
+    # successive steps equal up to a relative 1e-7 .. 1e-4 while ||H|| is large enough (10 .. 50) for one such
+    # difference to show at tolerance.  Non-trivial: >= 2 requested times (always).
+    k = 0
+    for rep in range(ctx.n(1, 8)):
+        for method, hk, isdop in cells:
+            for fam in ("ns_irregular", "ns_geometric", "ns_zero_step_first", "slow_near_equal", "near_equal"):
+                k += 1
+                n = int(rng.integers(3, 7))
+                sgn = lambda: 1.0 if (method == "integrate" and hk != "tuple") or rng.random() < 0.75 else -1.0
+                if fam.startswith("ns_"):
+                    w = 2 * math.pi * 1e9 * float(rng.uniform(0.3, 3.0))
+                    t0 = [0.0, 2e-9, -1.5e-9][k % 3]
+                    if fam == "ns_irregular":
+                        steps = [sgn() * float(rng.uniform(0.05, 3.0)) / w for _ in range(n)]
+                    elif fam == "ns_geometric":
+                        steps = list(np.diff(np.concatenate([[0.0], np.geomspace(1e-2, 20.0, n + 2)])) / w)
+                    else:
+                        steps = [0.0] + [float(rng.uniform(0.05, 2.0)) / w for _ in range(n)]
+                elif fam == "slow_near_equal":
+                    w = 1e-6 * float(rng.uniform(0.5, 2.0))
+                    t0 = [0.0, 3.0e5][k % 2]
+                    s0 = float(rng.uniform(0.5, 2.0)) / w
+                    steps = [s0, s0 * (1 + 4e-6), sgn() * s0 * (1 - 7e-6), s0, s0 / 2, s0 / 2 * (1 + 2e-6)][:n]
+                else:
+                    w = float(rng.uniform(10.0, 50.0))
+                    t0 = [0.0, 0.75, -0.5][k % 3]
+                    s0 = float(rng.uniform(0.2, 1.0))
+                    rel = lambda: 10.0 ** -float(rng.uniform(4.0, 7.0))
+                    steps = [s0, s0 * (1 + rel()), sgn() * s0 / 2, s0 / 2 * (1 + rel()), s0, s0 * (1 - rel())][:n]
+                ts, cur = [], t0
+                for x in steps:
+                    cur = cur + x
+                    ts.append(cur)
+                spec = make_spec(rng, d=int(rng.choice([2, 3, 4, 8])), isdop=isdop, method=method, hk=hk, cplx=bool(rng.integers(0, 2)),
+                                 t0=t0, ts=ts, api="at_times" if (k + rep) % 2 else "update_to", compute=computes[k % 4],
+                                 mixed=bool(k % 2), norm=w)
+                spec["wscale"] = w
+                spec["family"] = fam
+                ctx.count(("oracle_units", rep, k, method, hk, isdop, fam), True)
+                ctx.bump(f"oracle:units:{fam}:{method}")
+                report(ctx, spec, run_oracle(spec))
     # time-dependent Hamiltonians (integrate only)
     for i in range(ctx.n(15, 240)):
         hk = ["callable", "callable_sparse", "callable_commuting"][i % 3]
@@ -1164,6 +1438,12 @@ def replay(ctx, path):
         fails = run_oracle(spec)
         print("replay:", fails if fails else "no failure")
         report(ctx, spec, fails)
+    elif isinstance(spec, dict) and spec.get("kind") == "steps":
+        ctx.extra["rule"] = "replay of one step-rule case"
+        ctx.count(("replay", path), True)
+        mism = step_probe(spec)
+        print("replay:", mism if mism else "no failure")
+        report_steps(ctx, spec, mism)
     elif isinstance(spec, dict) and spec.get("kind") == "must_reject":
         ctx.extra["rule"] = "replay of one must-be-rejected cell"
         ctx.count(("replay", path), True)
